@@ -561,6 +561,18 @@ def run_search(inst, which, variant=None):
       mmo = tbrmatchedmarkets.TBRMatchedMarkets(data, par)
     if inst.get('decoy'):
       interfere(mmo)
+    if inst['id'] % 4 == 1:
+      # the caller has looked at the constraint sets first and edited what it was handed (its own objects now)
+      for q in ('geos_over_budget', 'geos_too_large', 'geos_must_include', 'geos_within_constraints'):
+        try:
+          got = getattr(mmo, q)
+          if isinstance(got, set):
+            if q == 'geos_within_constraints':
+              got.difference_update(set(mmo.geos_must_include) or set(sorted(got)[:1]))
+            else:
+              got.clear()
+        except Exception:  # pylint: disable=broad-except
+          pass
     _verif_trace.set_sink(lambda e, f: events.append((e, f)))
     try:
       return mmo.exhaustive_search() if which == 'exh' else mmo.greedy_search()
